@@ -112,6 +112,7 @@ theorem unstorable_refused (s : Pkg) (name : List Char) (cols : List Column)
     split; · exact ⟨_, rfl⟩
     split; · exact ⟨_, rfl⟩
     split; · exact ⟨_, rfl⟩
+    split; · exact ⟨_, rfl⟩
     exact ⟨_, rfl⟩
   obtain ⟨k, hk⟩ := this
   exact ⟨k, by unfold Pkg.createTable; rw [hk]⟩
